@@ -6,7 +6,9 @@ import (
 	"io"
 	"math/big"
 	"os"
+	"runtime"
 	"slices"
+	"sync"
 
 	"github.com/bronlabs/bron-crypto/pkg/base/algebra"
 	"github.com/bronlabs/bron-crypto/pkg/base/curves/edwards25519"
@@ -38,6 +40,9 @@ import (
 	"github.com/bronlabs/bron-crypto/pkg/mpc/sharing/scheme/kw/msp"
 	"github.com/bronlabs/bron-crypto/pkg/mpc/sharing/vss/feldman"
 	"github.com/bronlabs/bron-crypto/pkg/mpc/sharing/vss/pedersen"
+	"github.com/bronlabs/bron-crypto/pkg/mpc/signatures/ecdsa/dkls23"
+	mpcschnorr "github.com/bronlabs/bron-crypto/pkg/mpc/signatures/schnorr"
+	"github.com/bronlabs/bron-crypto/pkg/mpc/zero/hjky"
 	"github.com/bronlabs/bron-crypto/pkg/proofs/dlog/schnorr"
 	"github.com/bronlabs/bron-crypto/pkg/proofs/sigma/compiler/fiatshamir"
 	"github.com/bronlabs/bron-crypto/pkg/proofs/sigma/compiler/fiatshamir/zkmodule"
@@ -465,8 +470,8 @@ func sharingACs() []namedAC {
 
 // ---- 2..6: generic in the group ---------------------------------------------------------
 
-func eqMSP[S algebra.PrimeFieldElement[S]](x, y *msp.MSP[S]) bool   { return x.Equal(y) }
-func eqKW[S algebra.PrimeFieldElement[S]](x, y *kw.Share[S]) bool   { return x.Equal(y) }
+func eqMSP[S algebra.PrimeFieldElement[S]](x, y *msp.MSP[S]) bool             { return x.Equal(y) }
+func eqKW[S algebra.PrimeFieldElement[S]](x, y *kw.Share[S]) bool             { return x.Equal(y) }
 func eqPedShare[S algebra.PrimeFieldElement[S]](x, y *pedersen.Share[S]) bool { return x.Equal(y) }
 
 func mspSamples[S algebra.PrimeFieldElement[S]](b *builder, sfx string, f algebra.PrimeField[S]) {
@@ -958,28 +963,86 @@ func (b *builder) schnorrProofs() {
 
 // ---- 13. protocol messages: Gennaro DKG, 3 parties, k256 ---------------------------------------------------
 
+// forkReader is the prng handed to protocol participants. The AND-composition of sigma protocols
+// used by Gennaro round 1 (sigand, an errgroup) draws the prover nonces from several goroutines
+// that share the participant's prng, so with a plain stream the proof bytes depend on the
+// scheduler. forkReader serves the goroutine that created it from the main stream and every
+// other goroutine from its own copy of one side stream (same bytes for all workers of a batch):
+// what each goroutine reads no longer depends on the interleaving, and the run is reproducible.
+// (The repeated nonces are of no concern here: only the wire format of the messages is used.)
+type forkReader struct {
+	mu      sync.Mutex
+	b       *builder
+	stream  string
+	owner   uint64
+	main    *vh.Rng
+	workers map[uint64]*vh.Rng
+	epoch   int
+}
+
+func (b *builder) forkRng(stream string, idx int) *forkReader {
+	return &forkReader{b: b, stream: stream, owner: curGoid(), main: b.rng(stream, idx), workers: map[uint64]*vh.Rng{}}
+}
+
+func curGoid() uint64 {
+	var buf [64]byte
+	s := buf[:runtime.Stack(buf[:], false)] // "goroutine 123 [running]:..."
+	s = bytes.TrimPrefix(s, []byte("goroutine "))
+	var id uint64
+	for _, c := range s {
+		if c < '0' || c > '9' {
+			break
+		}
+		id = id*10 + uint64(c-'0')
+	}
+	return id
+}
+
+func (l *forkReader) Read(p []byte) (int, error) {
+	g := curGoid()
+	l.mu.Lock()
+	defer l.mu.Unlock()
+	if g == l.owner {
+		if len(l.workers) > 0 { // a batch of workers is over: the next batch gets a fresh side stream
+			l.workers = map[uint64]*vh.Rng{}
+			l.epoch++
+		}
+		return l.main.Read(p)
+	}
+	r := l.workers[g]
+	if r == nil {
+		r = l.b.rng(l.stream+"/worker", l.epoch)
+		l.workers[g] = r
+	}
+	return r.Read(p)
+}
+
 func (b *builder) gennaroMessages() {
+	b.group("msg-gennaro", func() { b.gennaroRun("gennaro") })
+}
+
+func (b *builder) gennaroRun(stream string) {
 	type G = *k256.Point
 	type S = *k256.Scalar
 	type P = *gennaro.Participant[G, S]
 	type r1b = *gennaro.Round1Broadcast[G, S]
 	type r1u = *gennaro.Round1Unicast[G, S]
 	type r2b = *gennaro.Round2Broadcast[G, S]
-	b.group("msg-gennaro", func() {
+	func() {
 		ids := []ID{1, 2, 3}
 		ac, err := mkThreshold(2, 1, 2, 3)
 		if err != nil {
 			sampleError("msg-gennaro", err)
 			return
 		}
-		ctxs, err := makeContexts(b.rng("gennaro/ctx", 0), ids)
+		ctxs, err := makeContexts(b.rng(stream+"/ctx", 0), ids)
 		if err != nil {
 			sampleError("msg-gennaro", err)
 			return
 		}
 		parts := map[ID]P{}
 		for _, id := range ids {
-			p, err := gennaro.NewParticipant(ctxs[id], k256.NewCurve(), ac, fiatshamir.Name, io.Reader(b.rng("gennaro/party", int(id))))
+			p, err := gennaro.NewParticipant(ctxs[id], k256.NewCurve(), ac, fiatshamir.Name, b.forkRng(stream+"/party", int(id)))
 			if err != nil {
 				sampleError("msg-gennaro", err)
 				return
@@ -1049,6 +1112,113 @@ func (b *builder) gennaroMessages() {
 			put(b, "baseshard-k256", fmt.Sprintf("gennaro dkg output of party %d", id), shard,
 				func(x, y *mpc.BaseShard[G, S]) bool { return x.Equal(y) }, shardFacts[G, S](k256.NewCurve()))
 		}
+	}()
+}
+
+// HJKY zero-sharing, 3 parties, k256: one round, a broadcast and a unicast message type.
+func (b *builder) hjkyMessages() {
+	type G = *k256.Point
+	type S = *k256.Scalar
+	type r1b = *hjky.Round1Broadcast[G, S]
+	type r1u = *hjky.Round1P2P[G, S]
+	b.group("msg-hjky", func() {
+		ids := []ID{1, 2, 3}
+		ac, err := mkThreshold(2, 1, 2, 3)
+		if err != nil {
+			sampleError("msg-hjky", err)
+			return
+		}
+		ctxs, err := makeContexts(b.rng("hjky/ctx", 0), ids)
+		if err != nil {
+			sampleError("msg-hjky", err)
+			return
+		}
+		bo := map[ID]r1b{}
+		uo := map[ID]ds.Map[ID, r1u]{}
+		parts := map[ID]*hjky.Participant[G, S]{}
+		for _, id := range ids {
+			p, err := hjky.NewParticipant(ctxs[id], ac, k256.NewCurve(), b.forkRng("hjky/party", int(id)))
+			if err != nil {
+				sampleError("msg-hjky", err)
+				return
+			}
+			parts[id] = p
+			bc, uc, err := p.Round1()
+			if err != nil {
+				sampleError("msg-hjky-r1", err)
+				return
+			}
+			bo[id], uo[id] = bc, uc
+		}
+		put(b, "msg-hjky-r1-bcast", "from 1", bo[1], cborEq[r1b], nil)
+		put(b, "msg-hjky-r1-bcast", "from 2", bo[2], cborEq[r1b], nil)
+		for _, to := range ids[1:] {
+			if m, ok := uo[1].Get(to); ok {
+				put(b, "msg-hjky-r1-p2p", fmt.Sprintf("from 1 to %d", to), m, cborEq[r1u], nil)
+			}
+		}
+		// round 2 output: a zero share and its verification vector
+		bin := hashmap.NewComparable[ID, r1b]()
+		uin := hashmap.NewComparable[ID, r1u]()
+		for _, from := range ids[1:] {
+			bin.Put(from, bo[from])
+			m, _ := uo[from].Get(1)
+			uin.Put(from, m)
+		}
+		sh, vv, err := parts[1].Round2(bin.Freeze(), uin.Freeze())
+		if err != nil {
+			sampleError("msg-hjky-r2", err)
+			return
+		}
+		put(b, "feldmanshare-k256", "hjky zero share of party 1", sh, eqKW[S], nil)
+		put(b, "feldmanvv-k256", "hjky zero-sharing verification vector (first entry is the identity)", vv,
+			func(x, y *feldman.VerificationVector[G, S]) bool { return x.Equal(y) }, nil)
+	})
+}
+
+// signing shards (wrappers of BaseShard) and a DKLs23 partial signature.
+func (b *builder) signingShards() {
+	type G = *k256.Point
+	type F = *k256.BaseFieldElement
+	type S = *k256.Scalar
+	curve := k256.NewCurve()
+	f := k256.NewScalarField()
+	b.group("signingshards", func() {
+		ac, err := mkThreshold(2, 1, 2, 3)
+		if err != nil {
+			sampleError("dkls23shard-k256", err)
+			return
+		}
+		shards, err := trusteddealer.Deal(curve, ac, io.Reader(b.rng("signingshards", 0)))
+		if err != nil {
+			sampleError("dkls23shard-k256", err)
+			return
+		}
+		for _, id := range sortedIDs(ac.Shareholders()) {
+			bs, _ := shards.Get(id)
+			d, err := dkls23.NewShard[G, F, S](bs)
+			putE(b, "dkls23shard-k256", fmt.Sprintf("NewShard(trusted dealer shard of %d)", id), d, err,
+				func(x, y *dkls23.Shard[G, F, S]) bool { return x.Equal(y) })
+			ss, err := mpcschnorr.NewShard(bs.Share(), bs.VerificationVector(), bs.MSP())
+			putE(b, "schnorrshard-k256", fmt.Sprintf("NewShard(trusted dealer shard of %d)", id), ss, err,
+				func(x, y *mpcschnorr.Shard[G, S]) bool { return x.Equal(y) })
+		}
+		nz := func(r *vh.Rng) S {
+			for {
+				x, err := f.Random(r)
+				if err == nil && !x.IsZero() {
+					return x
+				}
+			}
+		}
+		for i := 0; i < 2*b.reps; i++ {
+			r := b.rng("dkls23partialsig", i)
+			ps, err := dkls23.NewPartialSignature[G, F, S](curve.Generator().ScalarOp(nz(r)), nz(r), nz(r))
+			putE(b, "dkls23partialsig-k256", fmt.Sprintf("NewPartialSignature(random#%d)", i), ps, err,
+				cborEq[*dkls23.PartialSignature[G, F, S]])
+		}
+		ps, err := dkls23.NewPartialSignature[G, F, S](curve.Generator(), f.One(), f.One().Neg())
+		putE(b, "dkls23partialsig-k256", "NewPartialSignature(G, 1, q-1)", ps, err, cborEq[*dkls23.PartialSignature[G, F, S]])
 	})
 }
 
@@ -1146,6 +1316,8 @@ func buildSamples(seed int64, tier string) []Sample {
 	b.hashcoms()
 	b.schnorrProofs()
 	b.gennaroMessages()
+	b.hjkyMessages()
+	b.signingShards()
 	b.extras()
 	return b.out
 }
